@@ -159,9 +159,12 @@ CHECKS = {
           "target (statement, nested assignment expression, postfix) and an undeclared name never typeable; and the rules suffice: a class-free program the checker "
           "accepts never reaches an undefined operation (type soundness, by invariants over environments, for every fuel). The analyser is tied to the checker by differential acceptance on valid programs with one rule-directed edit at "
           "a random position (type of any expression slot, variable swaps, final, declared/return types incl. void, return shape, repeated or moved "
-          "declarations, void calls used six ways, finals written six ways). The class-related rules (final fields, access, static/abstract, this/super, "
-          "null, @quantum/@shots, class compatibility) are not in the Coq checker: they are checked against the rule text by violating/repaired program "
-          "pairs across positions (partial).", "DESIGN.md §6 C16"),
+          "declarations, void calls used six ways, finals written six ways). For the class layer (Lang/ClassTyping.v: access control, final fields, "
+          "static context, abstract/static classes, subclass assignability, null, overloads) it is proved that accepting a program is accepting every body in the "
+          "context of its position and that the rule for each expression form holds at every position of an accepted body (any statement nesting, loop header "
+          "or step, any expression depth); tied by differential acceptance on class programs with one class-rule edit. Soundness of the class layer against the "
+          "object interpreter is not proved; @quantum/@shots and positions the generators do not reach are checked against the rule text by violating/repaired "
+          "pairs (partial).", "DESIGN.md §6 C16"),
    note="Trusted: Coq kernel; extraction; glue; the pair corpus. Programs the surface syntax cannot express (Parse errors after mutation) are skipped.",
    technique="Coq proof (compositionality of the checker) + extraction-based differential acceptance testing + rule-text pair corpus"),
  "C17": dict(
